@@ -137,7 +137,12 @@ fn rq_class(rng: &mut Rng, profile: Profile, avoid_mn: bool) -> RqSpec {
                     policy: PolicySpec::Compact,
                     amount: 10_000,
                 }],
-                min_time: 0,
+                // `--time-request` of a multi-node task: every member needs the lifetime
+                min_time: if rng.chance(1, 3) {
+                    rng.range(1, 1800)
+                } else {
+                    0
+                },
             }],
         };
     }
